@@ -148,12 +148,38 @@ class Gen:
                 st.append(S('net', dir='c2g', i=rng.randrange(3), act=rng.choice(['deliver', 'deliver', 'deliver', 'lose', 'dup'])))
             elif c < 0.80:
                 st.append(S('net', dir='g2c', i=rng.randrange(3), act=rng.choice(['deliver', 'deliver', 'deliver', 'lose', 'dup'])))
-            elif c < 0.95:
+            elif c < 0.93:
                 st.append(S('adv', d=odd(rng, rng.choice([R // 2, R, 2 * R]))))
+            elif c < 0.96:
+                # a transient local write error (ENOBUFS, EPERM ...): exactly one acknowledgement / request is not written
+                st.append(S('sockfail', act='once', svc=rng.choice(['TunnelRes', 'TunnelRes', 'TunnelReq'])))
             else:
                 st.append(S('adv', d=odd(rng, T)))
         st += [S('flush', n=3), S('adv', d=odd(rng, T)), S('flush', n=2), S('reader', act='off'), S('drain')]
         return dict(run=run, cfg=cfg, steps=st, tag='link')
+
+    def close_on_channel(self, run, ch):
+        """C10: the gateway may assign any channel id, 0 and 255 included; Close must send its one disconnect request there too."""
+        rng = self.rng
+        R, T = rng.choice([(2_000, 6_001), (1_000, 5_003)])
+        st = [S('gwpolicy', s='nextchan', n=ch), S('connect')]
+        if rng.random() < 0.5:   # ... or after a reconnect onto that channel
+            st = [S('connect'), S('gwpolicy', s='nextchan', n=ch), S('gwgiveup'), S('flush', n=3)]
+        st += clean_send(self.newpid()) + clean_tele(self.newpid())
+        st += [S('close', g=1), S('flush', n=1), S('adv', d=odd(rng, R)), S('census'), S('send', g=7, p=self.newpid()), S('recv'), S('census')]
+        return dict(run=run, cfg=dict(R=R, T=T, H=BIGH), steps=st, tag='close-on-channel')
+
+    def close_in_reconnect(self, run):
+        """C10: Close lands while the client reconnects and the gateway answers every connect request 'busy'."""
+        rng = self.rng
+        R, T = rng.choice([(2_000, 6_001), (2_000, 4_001), (1_000, 5_003)])
+        cfg = dict(R=R, T=T, H=BIGH)
+        st = [S('connect'), S('gwpolicy', s='conn', act=rng.choice(['busy', 'busy', 'silent'])), S('gwgiveup'), S('flush', n=3)]
+        st += [S('close', g=1)]      # (one closer: a second one would wait on sync.Once, which the bubble cannot advance through)
+        for _ in range(4 * T // R + 4):   # the gateway keeps answering for well over the bound of Close
+            st += [S('adv', d=R), S('flush', n=2)]
+        st += [S('adv', d=odd(rng, T)), S('census'), S('send', g=7, p=self.newpid()), S('recv'), S('census')]
+        return dict(run=run, cfg=cfg, steps=st, tag='close-in-reconnect')
 
     # ---- C09: heartbeat / reconnect ------------------------------------------
     def heartbeat(self, run, n=40):
@@ -174,13 +200,13 @@ class Gen:
             elif c < 0.58:
                 st.append(S('gwpolicy', s='conn', act=rng.choice(['ok', 'ok', 'ok', 'busy', 'refuse', 'silent'])))
             elif c < 0.63:
-                st.append(S('gwpolicy', s='nextchan', n=rng.choice([1, 2, 3, 1])))
+                st.append(S('gwpolicy', s='nextchan', n=rng.choice([1, 2, 3, 1, 0, 255])))
             elif c < 0.70:
                 st.append(S('inject', svc=rng.choice(['DiscReq', 'DiscRes', 'ConnStateRes']), ch='other', st=rng.choice([0, 0x21])))
             elif c < 0.75:
                 st += [S('gwgiveup'), S('flush', n=3)]
             elif c < 0.78:
-                st.append(S('inject', svc='DiscRes', ch='own'))
+                st.append(S('inject', svc='DiscRes', ch='own', st=rng.choice([0, 0, 0x21, 0x26])))
             elif c < 0.86:
                 st += clean_send(self.newpid())
             elif c < 0.93:
